@@ -109,6 +109,38 @@ def judge_wrapper(area, qe, thr, events):
     return out
 
 
+def judge_wrapper_history(area, qe, thr):
+    """all sequences of length <= 3 over three same-shaped batches on ONE EAS object (spy kernel): every call must give
+    what the same batch gives on a fresh object"""
+    from nuspacesim.simulation.eas_optical.eas import EAS
+
+    cfg = sim.make_config(extra={"detector": {"optical": {"telescope_effective_area": area, "quantum_efficiency": qe, "photo_electron_threshold": thr}}})
+    A = [(10.0, 5.0, 1.2), (25.0, 7.0, 0.7), (0.0, 1e3, 2.0), (-1.0, 3.0, 0.3)]
+    B = [(25.0, 5.0, 1.2), (10.0, 7.0, 0.7), (-0.5, 1e3, 2.0), (5.0, 3.0, 0.3)]
+    C = [(10.0, 0.0, 3.0), (10.0, 50.0, 0.1), (30.0, 1.0, 1.0), (20.0, 9.0, 0.9)]
+    batches = [A, B, C]
+
+    def call(eas, evs):
+        n = len(evs)
+        beta = np.array([0.01 + 0.001 * i for i in range(n)])
+        eas.CphotAng = Spy({float(b): (ev[1], ev[2]) for b, ev in zip(beta, evs)})
+        pe, ce = eas(beta, np.array([e[0] for e in evs], dtype=float), np.ones(n), np.zeros(n), np.zeros(n), cloudf=None)
+        return np.asarray(pe, dtype=float).tobytes() + np.asarray(ce, dtype=float).tobytes()
+
+    fresh = [call(EAS(cfg), b) for b in batches]
+    out = []
+    n = 0
+    for d in (2, 3):
+        for seq in itertools.product(range(3), repeat=d):
+            eas = EAS(cfg)
+            for pos, k in enumerate(seq):
+                n += 1
+                if call(eas, batches[k]) != fresh[k]:
+                    out.append(("wrapper_independent_of_call_history", list(seq[: pos + 1]), "same as on a fresh object", "differs"))
+                    break
+    return out, n
+
+
 def ratio_alphabet():
     return [0.0, 1.0, float(np.nextafter(2.0, 0)), 2.0, float(np.nextafter(2.0, 3)), math.e, 10.0, 1e6]
 
@@ -214,6 +246,10 @@ def run(ctx):
         ctx.tick(3 * len(order), ("wrapper_real", tuple(order)))
         for c, e, o in judge_wrapper_real(order)[:3]:
             ctx.violation(c, {"kind": "wreal", "order": order}, e, o)
+    v, n = judge_wrapper_history(2.5, 0.2, 10.0)
+    ctx.tick(n, ("wrapper_history",))
+    for c, seq, e, o in v[:3]:
+        ctx.violation(c, {"kind": "whist", "seq": seq}, e, o)
     areas = [0.5, 2.5, 10.0]
     qes = [0.1, 0.2, 1.0]
     thrs = [1.0, 10.0, 100.0]
@@ -270,6 +306,9 @@ def replay(case):
     k = case["kind"]
     if k == "wrap":
         return judge_wrapper(case["area"], case["qe"], case["thr"], [tuple(e) for e in case["events"]])
+    if k == "whist":
+        v, _ = judge_wrapper_history(2.5, 0.2, 10.0)
+        return [(c, e, o) for c, seq, e, o in v if seq == case["seq"]]
     if k == "wreal":
         return judge_wrapper_real(case["order"])
     if k == "mono":
